@@ -1008,6 +1008,36 @@ fn replay_longname(_args: &[String]) -> i32 {
     0
 }
 
+/// C09 probe: `joincol` -- a join whose ON condition names a column that neither side has: the
+/// read operation must return a value or an error, not panic.
+fn replay_joincol(_args: &[String]) -> i32 {
+    use msi::{Column, Insert, Select};
+    panic::set_hook(Box::new(|_| {}));
+    let mk = || -> Package<Cursor<Vec<u8>>> {
+        let mut p = Package::create(PackageType::Installer, Cursor::new(Vec::new())).unwrap();
+        p.create_table("A", vec![Column::build("K").primary_key().int16(), Column::build("V").nullable().int16()]).unwrap();
+        p.create_table("B", vec![Column::build("K").primary_key().int16(), Column::build("W").nullable().int16()]).unwrap();
+        p.insert_rows(Insert::into("A").row(vec![Value::Int(1), Value::Int(2)])).unwrap();
+        p.insert_rows(Insert::into("B").row(vec![Value::Int(1), Value::Int(3)])).unwrap();
+        p
+    };
+    let queries: Vec<(&str, Box<dyn Fn() -> Select>)> = vec![
+        ("inner join ON A.Nope = B.K", Box::new(|| Select::table("A").inner_join(Select::table("B"), Expr::col("A.Nope").eq(Expr::col("B.K"))))),
+        ("left join ON A.K = B.Nope", Box::new(|| Select::table("A").left_join(Select::table("B"), Expr::col("A.K").eq(Expr::col("B.Nope"))))),
+        ("inner join ON A.K = B.K", Box::new(|| Select::table("A").inner_join(Select::table("B"), Expr::col("A.K").eq(Expr::col("B.K"))))),
+    ];
+    for (what, q) in queries {
+        let mut p = mk();
+        let r = panic::catch_unwind(panic::AssertUnwindSafe(|| match p.select_rows(q()) { Ok(rows) => format!("Ok({} rows)", rows.count()), Err(e) => format!("Err({e})") }));
+        match r {
+            Err(_) => { println!("REPLAY family=joincol query=\"{what}\" verdict=VIOLATED (select_rows PANICKED)"); return 1; }
+            Ok(res) => println!("REPLAY family=joincol query=\"{what}\" result={res}"),
+        }
+    }
+    println!("REPLAY family=joincol verdict=ok (a value or an error)");
+    0
+}
+
 fn main() {
     let args: Vec<String> = std::env::args().skip(1).collect();
     if args.is_empty() {
@@ -1033,6 +1063,7 @@ fn main() {
         "catalognull" => replay_catalognull(&args[1..]),
         "enumsemi" => replay_enumsemi(&args[1..]),
         "longname" => replay_longname(&args[1..]),
+        "joincol" => replay_joincol(&args[1..]),
         _ => 2,
     };
     std::process::exit(rc);
